@@ -303,3 +303,88 @@ theorem lonlatToCell_world (ll : V2) : lonlatToCell ll (-1) = .ok WORLD_CELL := 
   unfold lonlatToCell; rw [if_pos rfl]
 
 end A5.CellGeo
+
+namespace A5.CellGeo
+open A5 A5.F
+
+/-- decision logic of the search loop: an `inl` answer is a cell that passes the library's own containment test FOR THE QUERY POINT;
+    an `inr` answer lists only candidates that fail it -/
+theorem searchLoop_decision (ll : V2) (r : Int) : ∀ (samples : List V2) (seen : List Nat) (cells : List (Est × Float))
+    (res : Sum Nat (List (Est × Float))),
+    (∀ c ∈ cells, cellContainsPoint c.1.toCell ll = .ok c.2 ∧ ¬ c.2 > 0) → searchLoop ll r samples seen cells = .ok res →
+      match res with
+      | .inl key => ∃ (e : Est) (d : Float), serialize e.toCell = .ok key ∧ cellContainsPoint e.toCell ll = .ok d ∧ d > 0 ∧
+          ∃ s ∈ samples, lonlatToEstimate s r = .ok e
+      | .inr cs => ∀ c ∈ cs, cellContainsPoint c.1.toCell ll = .ok c.2 ∧ ¬ c.2 > 0 := by
+  intro samples
+  induction samples with
+  | nil =>
+    intro seen cells res hc h
+    unfold searchLoop at h
+    have := Except.ok.inj h
+    subst this
+    exact hc
+  | cons s rest ih =>
+    intro seen cells res hc h
+    unfold searchLoop at h
+    obtain ⟨est, he, h⟩ := bind_eq_ok h
+    obtain ⟨key, hk, h⟩ := bind_eq_ok h
+    by_cases hseen : seen.contains key = true
+    · rw [if_pos hseen] at h
+      have := ih seen cells res hc h
+      cases res with
+      | inl k =>
+        obtain ⟨e, d, h1, h2, h3, s', hs', h4⟩ := this
+        exact ⟨e, d, h1, h2, h3, s', List.mem_cons_of_mem _ hs', h4⟩
+      | inr cs => exact this
+    · rw [if_neg hseen] at h
+      obtain ⟨d, hd', h⟩ := bind_eq_ok h
+      by_cases hd : d > 0
+      · rw [if_pos hd] at h
+        have := Except.ok.inj h
+        subst this
+        exact ⟨est, d, hk, hd', hd, s, List.mem_cons_self, he⟩
+      · rw [if_neg hd] at h
+        have hc' : ∀ c ∈ cells ++ [(est, d)], cellContainsPoint c.1.toCell ll = .ok c.2 ∧ ¬ c.2 > 0 := by
+          intro c hcm
+          rw [List.mem_append] at hcm
+          rcases hcm with hcm | hcm
+          · exact hc c hcm
+          · simp only [List.mem_singleton] at hcm
+            subst hcm
+            exact ⟨hd', hd⟩
+        have := ih _ _ res hc' h
+        cases res with
+        | inl k =>
+          obtain ⟨e, d2, h1, h2, h3, s', hs', h4⟩ := this
+          exact ⟨e, d2, h1, h2, h3, s', List.mem_cons_of_mem _ hs', h4⟩
+        | inr cs => exact this
+
+/-- C01 decision logic: at Hilbert resolutions the returned id is either a cell that passes the library's containment test for the query
+    point itself (`a5cell_contains_point(cell, point) > 0`), or — only when NO sampled candidate passes it — one of the failing candidates -/
+theorem lonlatToCell_decision (ll : V2) (r : Int) (hr : FHR ≤ r) (id : Nat) (h : lonlatToCell ll r = .ok id) :
+    (∃ (e : Est) (d : Float), serialize e.toCell = .ok id ∧ cellContainsPoint e.toCell ll = .ok d ∧ d > 0) ∨
+    (∃ cells : List (Est × Float), (∀ c ∈ cells, cellContainsPoint c.1.toCell ll = .ok c.2 ∧ ¬ c.2 > 0) ∧
+        ∃ b ∈ cells, serialize b.1.toCell = .ok id) := by
+  unfold lonlatToCell at h
+  have hF : FHR = 2 := rfl
+  rw [if_neg (by omega), if_neg (by omega)] at h
+  obtain ⟨res, hloop, h⟩ := bind_eq_ok h
+  have hd := searchLoop_decision ll r _ [] [] res (by intro c hc; cases hc) hloop
+  cases res with
+  | inl key =>
+    simp only at hd h
+    have := Except.ok.inj h
+    subst this
+    obtain ⟨e, d, h1, h2, h3, _⟩ := hd
+    exact Or.inl ⟨e, d, h1, h2, h3⟩
+  | inr cells =>
+    simp only at hd h
+    cases hb : bestCandidate cells with
+    | none => rw [hb] at h; cases h
+    | some b =>
+      rw [hb] at h
+      simp only at h
+      exact Or.inr ⟨cells, hd, b, bestCandidate_mem cells b hb, h⟩
+
+end A5.CellGeo
